@@ -503,6 +503,25 @@ func rulePageNumberAdvance(c *core.Ctx) {
 				o.Fail("%s does not install nextPageNumber.Inc()", fn.Key)
 				return
 			}
+			// callbacks waiting for the number of this page are attached to the
+			// future that holds it, i.e. before the future is replaced by its successor
+			for _, cv := range callVertices(g, pk+".(*futureInt).WhenAvailable") {
+				sel, ok := ast.Unparen(cv.Call.Fun).(*ast.SelectorExpr)
+				if !ok {
+					continue
+				}
+				if _, name, ok := selName(sel.X); !ok || name != "nextPageNumber" {
+					continue
+				}
+				o.Count(1)
+				o.At(fn.Site(cv.Call, "pending callback attached"))
+				for _, inst := range installs {
+					if g.PathExists(inst, cv.V, nil) {
+						o.FailAt(fn.Site(cv.Call, ""), "the callbacks waiting for this page's number are attached after the page number was advanced (%s): they are told the number of the next page", c.Prog.Pos(inst.AST.Pos()))
+						break
+					}
+				}
+			}
 			// the page is appended to the tail: every return after that append passes an install
 			for _, v := range g.Vs {
 				as, ok := v.AST.(*ast.AssignStmt)
